@@ -287,4 +287,265 @@ theorem C17_asFound_violates :
    ⟨none, some .screen, [], true⟩, by decide, by decide, by decide, by decide,
    ⟨⟨.screen, fun _ => true⟩, by decide⟩⟩
 
+/-! ## Round 3: text level (parser/printer of `parse/media_query.rs`, spelling-keeping merge), wrappers, D22 class -/
+
+/-- **Text clause, merge step**: a successful text-level merge (`MediaQuery::merge` with the
+    spelling selection of media.rs:208–221) invents no text: every condition of the result is a
+    condition of an operand, verbatim, and its type / modifier are an operand's, as spelled. -/
+theorem C17_mergeT_text_preserved (a b q : TQuery) (h : mergeT a b = .ok q) :
+    q.textFrom [a, b] = true := by
+  unfold mergeT at h
+  simp only [finishT] at h
+  repeat' split at h
+  all_goals (first | cases h | skip)
+  all_goals (try (injection h with h; subst h))
+  all_goals simp only [TQuery.textFrom, List.any_cons, List.any_nil, Bool.or_false, Bool.and_eq_true,
+    List.all_eq_true, List.all_append]
+  all_goals (refine ⟨⟨?_, ?_⟩, ?_⟩)
+  all_goals (try (intro c hc))
+  all_goals (try (split))
+  all_goals (try (cases ha : a.mtype <;> cases hb : b.mtype <;> simp_all [TQuery.ltype] <;> done))
+  all_goals (try (cases ha : a.modifier <;> cases hb : b.modifier <;> simp_all [TQuery.lmod] <;> done))
+  all_goals (try (simp_all [List.contains_iff_mem] <;> done))
+  all_goals (try (simp only [List.mem_append] at hc; rcases hc with hc | hc <;> simp [hc] <;> done))
+  all_goals (try (split at hc <;> simp_all [List.contains_iff_mem] <;> done))
+
+example : mergeT ⟨some "ONLY".toList, some "screen".toList, ["(f0)".toList], true⟩
+      ⟨none, some "Screen".toList, ["(f1)".toList], true⟩
+    = .ok ⟨some "ONLY".toList, some "screen".toList, ["(f0)".toList, "(f1)".toList], true⟩ := by decide
+
+/-- Positive text queries: the merged conditions are the operands' conditions, in order. -/
+theorem C17_mergeT_conds_preserved (a b q : TQuery) (hn : a.isNot = false) (hn' : b.isNot = false)
+    (h : mergeT a b = .ok q) : q.conds = a.conds ++ b.conds := by
+  unfold mergeT at h
+  simp only [finishT, hn, hn'] at h
+  repeat' split at h
+  all_goals (first | cases h | skip)
+  all_goals (try (injection h with h; subst h))
+  all_goals (first | rfl | simp_all)
+
+/-! ### the parser keeps condition texts verbatim -/
+
+def parTexts : List Tok → List (List Char)
+  | [] => []
+  | .par _ s :: r => s :: parTexts r
+  | _ :: r => parTexts r
+
+theorem logicSeq_conds (op : String) :
+    ∀ (ts : List Tok) (cs : List (List Char)) (r : List Tok),
+      logicSeq op ts = .ok (cs, r) → ∀ c ∈ cs, c ∈ parTexts ts := by
+  intro ts
+  fun_induction logicSeq op ts <;> intro cs r h c hc
+  all_goals (try (cases h; done))
+  all_goals simp_all [parTexts]
+  all_goals (obtain ⟨rfl, rfl⟩ := h)
+  all_goals (simp at hc)
+  · rcases hc with rfl | hc
+    · simp
+    · rename_i ih _; exact Or.inr (ih c hc)
+  · simp [hc]
+  · simp [hc]
+
+def condFrom (ts : List Tok) (c : List Char) : Prop :=
+  c ∈ parTexts ts ∨ ∃ s ∈ parTexts ts, c = notWrap s
+
+theorem afterAnd_conds (m t : Option (List Char)) (ts : List Tok) (q : TQuery) (r : List Tok)
+    (h : afterAnd m t ts = .ok (q, r)) : ∀ c ∈ q.conds, condFrom ts c := by
+  unfold afterAnd at h
+  split at h
+  · cases h
+  · split at h
+    · split at h
+      · split at h
+        · injection h with h; injection h with h1 h2; subst h1
+          intro c hc; simp at hc; subst hc
+          exact Or.inr ⟨_, by simp [parTexts], rfl⟩
+        · cases h
+      · cases h
+    · split at h
+      · rename_i cs r' hl
+        injection h with h; injection h with h1 h2; subst h1
+        intro c hc
+        exact Or.inl (logicSeq_conds "and" ts cs r' hl c hc)
+      · cases h
+
+theorem parTexts_cons_sub (t : Tok) (ts : List Tok) (c : List Char) (h : condFrom ts c) : condFrom (t :: ts) c := by
+  have sub : ∀ x, x ∈ parTexts ts → x ∈ parTexts (t :: ts) := by
+    intro x hx; cases t <;> simp [parTexts, hx]
+  rcases h with h | ⟨s, hs, rfl⟩
+  · exact Or.inl (sub _ h)
+  · exact Or.inr ⟨s, sub _ hs, rfl⟩
+
+theorem afterIdent1_conds (i1 : List Char) (ts : List Tok) (q : TQuery) (r : List Tok)
+    (h : afterIdent1 i1 ts = .ok (q, r)) : ∀ c ∈ q.conds, condFrom ts c := by
+  unfold afterIdent1 at h
+  repeat' split at h
+  all_goals (try (injection h with h; injection h with h1 h2; subst h1; intro c hc; simp at hc; done))
+  · intro c hc; exact parTexts_cons_sub _ _ _ (afterAnd_conds _ _ _ _ _ h c hc)
+  · intro c hc; exact parTexts_cons_sub _ _ _ (parTexts_cons_sub _ _ _ (afterAnd_conds _ _ _ _ _ h c hc))
+
+/-- **Text clause, parser** (`parse_media_query`, media_query.rs:43, on the scanned tokens): every
+    condition of the parsed query is the text of a `( … )` token of the input, verbatim and
+    untouched, or — for `not ( … )` — that text wrapped as `(not …)` (media_query.rs:70, :109). -/
+theorem C17_parse_conds_verbatim (ts : List Tok) (q : TQuery) (r : List Tok)
+    (h : parseQuery ts = .ok (q, r)) : ∀ c ∈ q.conds, condFrom ts c := by
+  unfold parseQuery at h
+  repeat' split at h
+  all_goals (first | cases h; done | skip)
+  · rename_i cs r' hl
+    injection h with h; injection h with h1 h2; subst h1
+    intro c hc; simp at hc
+    rcases hc with rfl | hc
+    · exact Or.inl (by simp [parTexts])
+    · exact parTexts_cons_sub _ _ _ (parTexts_cons_sub _ _ _ (Or.inl (logicSeq_conds "and" _ cs r' hl c hc)))
+  · rename_i cs r' hl
+    injection h with h; injection h with h1 h2; subst h1
+    intro c hc; simp at hc
+    rcases hc with rfl | hc
+    · exact Or.inl (by simp [parTexts])
+    · exact parTexts_cons_sub _ _ _ (parTexts_cons_sub _ _ _ (Or.inl (logicSeq_conds "or" _ cs r' hl c hc)))
+  · injection h with h; injection h with h1 h2; subst h1
+    intro c hc; simp at hc; subst hc; exact Or.inl (by simp [parTexts])
+  · injection h with h; injection h with h1 h2; subst h1
+    intro c hc; simp at hc; subst hc; exact Or.inl (by simp [parTexts])
+  · injection h with h; injection h with h1 h2; subst h1
+    intro c hc; simp at hc; subst hc; exact Or.inr ⟨_, by simp [parTexts], rfl⟩
+  · intro c hc; exact parTexts_cons_sub _ _ _ (afterIdent1_conds _ _ _ _ h c hc)
+  · intro c hc; exact parTexts_cons_sub _ _ _ (afterIdent1_conds _ _ _ _ h c hc)
+
+example : parseQuery [.id false "screen".toList, .id true "AND".toList, .par true "(f0)".toList,
+      .id false "and".toList, .par true "( f1 )".toList]
+    = .ok (⟨none, some "screen".toList, ["(f0)".toList, "( f1 )".toList], true⟩, []) := by rfl
+
+/-! ### wrappers: which enclosing `@media` lists take part (`@at-root (without: media)`) -/
+
+/-- **Only the not-escaped chain matters**: whatever encloses an `@at-root (without: media)` —
+    as long as it is reached at all — the emitted media rules below it are those of the items
+    that follow, run from the empty media context. -/
+theorem C17_escape_resets (byEq : Bool) :
+    ∀ (pre : List Item) (st : TChainSt) (post : List Item),
+      chainRunT byEq st (pre ++ .escape :: post) =
+        match chainRunT byEq st pre with
+        | .ok _ => chainRunT byEq .init post
+        | r => r := by
+  intro pre
+  induction pre with
+  | nil => intro st post; simp [chainRunT]
+  | cons it pre ih =>
+    intro st post
+    cases it with
+    | media t =>
+      simp only [List.cons_append, chainRunT]
+      split
+      · rfl
+      · split
+        · rfl
+        · exact ih _ _
+    | style => simpa [chainRunT] using ih st post
+    | barrier => simpa [chainRunT] using ih _ post
+    | onlyMedia => simpa [chainRunT] using ih _ post
+    | escape => simpa [chainRunT] using ih _ post
+
+/-- Style rules (and `@at-root` that keeps the media context) do not take part. -/
+theorem C17_style_transparent (byEq : Bool) (st : TChainSt) (is : List Item) :
+    chainRunT byEq st (.style :: is) = chainRunT byEq st is := rfl
+
+example : (match chainRunT true .init [.media "screen".toList, .escape, .media "print".toList] with
+    | .ok st => st.levels.length | _ => 0) = 1 := by rfl
+
+/-! ### D22: exactly when the as-found `through` test differs from the specified one -/
+
+/-- **Exact step characterisation**: with the innermost level `cur` among the sources (it always
+    is: `srcs' = srcs ++ cur ++ l`), the as-found pop removes exactly the innermost level — the
+    specified behaviour — unless the next level out is also covered by the sources (`overPop`),
+    and then it removes strictly more. -/
+theorem C17_popThrough_exact (srcs : List Query) (pre : List (List Query)) (cur : List Query)
+    (hc : cur.all (fun q => srcs.contains q) = true) :
+    popThrough srcs (pre ++ [cur]) =
+      if overPop srcs (pre ++ [cur]) then popThrough srcs pre else (pre ++ [cur]).dropLast := by
+  unfold popThrough overPop
+  simp only [List.reverse_append, List.reverse_cons, List.reverse_nil, List.nil_append,
+    List.singleton_append, List.dropLast_concat]
+  rw [List.dropWhile_cons_of_pos (by simpa using hc)]
+  rcases List.eq_nil_or_concat pre with rfl | ⟨pre', l, rfl⟩
+  · simp
+  · by_cases hl : (l.all fun q => srcs.contains q) = true
+    · simp
+      intro x hx hn
+      exact absurd (by simpa using (List.all_eq_true.mp hl x hx)) hn
+    · simp
+      intro x hx hn
+      rw [List.dropWhile_cons_of_neg]
+      simp only [List.all_eq_true, decide_eq_true_eq]
+      exact fun hall => hn (hall x hx)
+
+/-- A step of the as-found visitor equals the specified step when no over-pop happens. -/
+theorem chainStep_asFound_eq (st : ChainSt) (l : List Query) (hinv : ChainInv st)
+    (h : ∀ cur, st.mq = some cur → overPop (st.srcs ++ cur ++ l) st.levels = false) :
+    chainStep true true st l = chainStep true false st l := by
+  unfold chainStep
+  rcases hinv with ⟨hm, _⟩ | ⟨pre, cur, hm, hl⟩
+  · simp [hm]
+  · simp only [hm]
+    split
+    · rfl
+    · have hc : cur.all (fun q => (st.srcs ++ cur ++ l).contains q) = true := by
+        simp only [List.all_eq_true, List.contains_iff_mem]
+        intro q hq; simp [hq]
+      have := C17_popThrough_exact (st.srcs ++ cur ++ l) pre cur hc
+      have hop := h cur hm
+      rw [hl] at hop ⊢
+      simp only [hop, Bool.false_eq_true, if_false, List.dropLast_concat] at this
+      simp only [if_true, List.dropLast_concat, this]
+      simp
+    · rfl
+
+example : overPop [⟨none, some .screen, [], true⟩] [[⟨none, some .screen, [], true⟩], [⟨none, some .print, [], true⟩]] = true := by decide
+
+theorem chainStep_inv (st : ChainSt) (l : List Query) (st' : ChainSt) (hinv : ChainInv st)
+    (h : chainStep true false st l = some st') : ChainInv st' := by
+  unfold chainStep at h
+  rcases hinv with ⟨hm, _⟩ | ⟨pre, cur, hm, hl⟩
+  · simp only [hm] at h; injection h with h; subst h; exact Or.inr ⟨_, _, rfl, rfl⟩
+  · simp only [hm] at h
+    split at h
+    · cases h
+    · injection h with h; subst h; exact Or.inr ⟨_, _, rfl, rfl⟩
+    · injection h with h; subst h; exact Or.inr ⟨_, _, rfl, rfl⟩
+
+theorem chainRun_asFound_eq : ∀ (ls : List (List Query)) (st : ChainSt), ChainInv st →
+    noOverPop st ls = true → chainRun true true st ls = chainRun true false st ls := by
+  intro ls
+  induction ls with
+  | nil => intro st _ _; rfl
+  | cons l ls ih =>
+    intro st hinv h
+    simp only [noOverPop, Bool.and_eq_true] at h
+    have e := chainStep_asFound_eq st l hinv (by
+      intro cur hm; have := h.1; simp only [hm] at this; simpa using this)
+    simp only [chainRun, e]
+    cases hst : chainStep true false st l with
+    | none => rfl
+    | some st' =>
+      simp only [Option.bind_some]
+      have h2 := h.2; simp only [hst] at h2
+      exact ih st' (chainStep_inv st l st' hinv hst) h2
+
+/-- **As-found soundness outside the D22 class**: the code as it stands (`through` by query
+    equality) emits exactly the intersection for every in-scope chain along which no merge step
+    finds the next enclosing level covered by the merged sources (`noOverPop`, decidable). -/
+theorem C17_asFound_chain_sound (e : Env) (ls : List (List Query))
+    (hs : chainInScope true false .init ls = true) (hn : noOverPop .init ls = true) :
+    (chain true true ls).sat e = ls.all (fun qs => satList qs e) := by
+  have := C17_chain_sound e ls hs
+  unfold chain at this ⊢
+  rw [chainRun_asFound_eq ls .init (Or.inl ⟨rfl, rfl⟩) hn]
+  exact this
+
+example : noOverPop .init [[⟨none, some .screen, [0], true⟩], [⟨none, none, [1], true⟩], [⟨some .only, some .screen, [2], true⟩]] = true := by decide
+/-- The D22 witness is inside the class (`noOverPop` fails for it). -/
+example : noOverPop .init [[⟨none, some .screen, [], true⟩],
+    [⟨none, some .screen, [], true⟩, ⟨some .not, some .screen, [0], true⟩],
+    [⟨none, some .print, [], true⟩]] = false := by decide
+
 end Grass.Media
